@@ -18,14 +18,18 @@ CLAIMED = {
     'C04': ('K3', 'queue conservation / exactly-once by induction over op sequences (Lean) + stepwise correspondence of queues and fill order', '6 C04'),
     'C05': ('K3', 'execution and fee-model theorems (Lean) + correspondence of each recorded Transaction with the model', '6 C05'),
     'C06': ('K2', 'refinement of the sort/expand/forward-fill/pad-lookup pipeline to "latest observed row at or before t" (Lean) + correspondence of CSV data source and handler', '6 C06'),
-    'C09': ('K4', 'order-diff and asset-union theorems over association lists (Lean) + correspondence of PortfolioConstructionModel.__call__', '6 C09'),
+    'C07': ('K7', 'causality by induction over the event list: the step function receives the market only at the event time (Lean) + read-log check and paired real runs on rewritten futures', '6 C07'),
+    'C08': ('K7', 'refinement of the operational session model to the day-indexed reference (Lean) + whole-run correspondence of implementation, operational model and reference', '6 C08'),
+    'C09': ('K4+K7', 'order-diff and asset-union theorems over association lists (Lean) + correspondence of PortfolioConstructionModel.__call__', '6 C09'),
     'C10': ('K4', 'floor/budget inequalities over ordered fields with a floor (Lean) + exact correspondence of target quantities', '6 C10'),
     'C11': ('K4', 'truncation/sign/gross-exposure inequalities over ordered fields (Lean) + exact correspondence of target quantities', '6 C11'),
     'C12': ('K1', 'generative date_range = filter over the day range, by induction (Lean) + correspondence of the event list with pandas', '6 C12'),
     'C13': ('K1', 'schedule = declarative calendar filter, structural months (Lean) + correspondence with the four Rebalance classes', '6 C13'),
-    'C16': ('K5', 'deque-window lemma and telescoping product (Lean) + correspondence of buffers and signal values', '6 C16'),
+    'C16': ('K5+K7', 'deque-window lemma and telescoping product (Lean) + correspondence of buffers and signal values', '6 C16'),
     'C17': ('K6', 'compounding/drawdown/scale-invariance theorems (Lean) + correspondence of every reported statistic', '6 C17'),
-    'C19': ('K4', 'universe membership and PCM composition invariant (Lean) + correspondence of universes, alpha keys, optimisers', '6 C19'),
+    'C19': ('K4+K7', 'universe membership and PCM composition invariant (Lean) + correspondence of universes, alpha keys, optimisers', '6 C19'),
+    'C14': ('K7', 'fold invariant over the event list: rebalances = clock ∩ schedule ∩ burn-in, equity at closes, allocation table (Lean) + structural correspondence of sessions', '6 C14'),
+    'C18': ('K7', 'independence of set-enumeration order, memo table and order ids (Lean) + repeated real runs: same process, reused data source, fresh interpreters under different hash seeds', '6 C18'),
     'C15': ('K3', 'case analysis of the step function: refusal leaves the observable state unchanged (Lean) + stepwise correspondence of refusals', '6 C15'),
 }
 
